@@ -29,7 +29,7 @@ import (
 var c09Families = []string{"corrupt", "cipher", "shape"}
 var c09Corrupt = []string{"truncate-xml", "bitflip-xml", "truncate-b64", "bitflip-b64", "truncate-deflate", "bitflip-deflate", "delete-byte-xml", "insert-byte-xml"}
 var c09DataAlgIDs = []string{types.MethodAES128GCM, types.MethodAES192GCM, types.MethodAES256GCM, types.MethodAES128CBC, types.MethodAES256CBC, types.MethodTripleDESCBC, "urn:unknown", ""}
-var c09CipherKinds = []string{"length-sweep", "cbc-last-byte", "cbc-all-zero", "wrapped-key-length", "wrapped-key-size", "bad-base64", "missing-parts"}
+var c09CipherKinds = []string{"length-sweep", "cbc-last-byte", "cbc-all-zero", "wrapped-key-length", "wrapped-key-size", "bad-base64", "missing-parts", "cbc-pad-then-zeros", "cbc-random-blocks"}
 var c09Cfgs = []string{"normal", "bare(empty-store,no-keys,nil-clock)", "failing-store", "skip-signature", "no-keys"}
 
 const c09Bases = 8
@@ -42,7 +42,7 @@ func init() {
 			"deep/wide/mixed documents; SP configurations normal / bare / failing store / skip / no keys; oracle: the call returns, pointer results obey exactly-one-of(result, error), no panic or fatal exit; distinct = shape hash (family, kind, base, offset bucket, config, outcome classes)",
 		Directed:   c09Directed,
 		Run:        c09Run,
-		MustHit:    []string{"family=corrupt", "family=cipher", "family=shape", "truncate", "bitflip", "cipher=length-sweep", "cipher=cbc-last-byte", "cipher=cbc-all-zero", "cipher=wrapped-key-length", "cfg=bare(empty-store,no-keys,nil-clock)", "cfg=failing-store", "via_unsigned_response", "deep_document"},
+		MustHit:    []string{"family=corrupt", "family=cipher", "family=shape", "truncate", "bitflip", "cipher=length-sweep", "cipher=cbc-last-byte", "cipher=cbc-all-zero", "cipher=wrapped-key-length", "cipher=cbc-pad-then-zeros", "cfg=bare(empty-store,no-keys,nil-clock)", "cfg=failing-store", "via_unsigned_response", "deep_document"},
 		RandomRuns: map[string]int{"quick": 2500, "thorough": 150000},
 		Assumptions: []string{"stack exhaustion / fatal runtime errors are caught through the worker crash journal and reported as violations",
 			"for []byte results (DecryptBytes) an empty plaintext with nil error is a legitimate result; the exactly-one rule is applied to pointer results"},
@@ -80,6 +80,14 @@ func c09Directed(tier string) [][]uint64 {
 		}
 		for l := uint64(0); l < 6; l++ {
 			out = append(out, []uint64{1, 2, alg, 0, l, 0})
+		}
+		if alg >= 3 && alg <= 5 {
+			for kv := uint64(0); kv < 17*24; kv++ {
+				if tier == "quick" && kv%3 != alg%3 {
+					continue
+				}
+				out = append(out, []uint64{1, 7, alg, 0, kv, kv % 2})
+			}
 		}
 	}
 	for ka := uint64(0); ka < 5; ka++ {
@@ -414,6 +422,34 @@ func c09Cipher(r *core.Run, s *Std, spKey int, spCert *world.Cert, kindRaw, algR
 		}
 		wrap(keyAlg, symKey)
 		detail = fmt.Sprintf("zero blocks=%d", nblk)
+	case "cbc-pad-then-zeros":
+		// k arbitrary octets, then octet v, then zeros to the end of the block(s): exercises the
+		// zero-trimming and padding arithmetic together
+		k, v := p1%17, byte((p1/17)%24)
+		nblk := 1 + p2%2
+		d := make([]byte, 16*nblk)
+		for i := 0; i < k && i < len(d); i++ {
+			d[i] = 'y'
+		}
+		if k < len(d) {
+			d[k] = v
+		}
+		ct = rawCBC(d)
+		wrap(keyAlg, symKey)
+		detail = fmt.Sprintf("prefix=%d then=%d zeros blocks=%d", k, v, nblk)
+	case "cbc-random-blocks":
+		rs := core.NewSplitMix(uint64(p1)*65537 + uint64(p2))
+		nblk := 1 + p2%4
+		d := make([]byte, 16*nblk)
+		for i := range d {
+			d[i] = byte(rs.Next())
+			if rs.Next()%4 == 0 {
+				d[i] = 0
+			}
+		}
+		ct = rawCBC(d)
+		wrap(keyAlg, symKey)
+		detail = fmt.Sprintf("random blocks=%d", nblk)
 	case "wrapped-key-length":
 		keyAlg = keyAlgs[algRaw%len(keyAlgs)]
 		opts.KeyAlg = keyAlg
